@@ -320,7 +320,7 @@ fn run_large(bytes: &[u8], ctx: &Ctx) -> CaseInfo {
     let base: isize = match s.weighted(&[5, 2, 1, 1]) {
         0 => 0,
         1 => 1_000_000_007,
-        2 => isize::MAX - 4000,
+        2 => isize::MAX - 20_000,
         _ => isize::MIN + 200,
     };
     let cap = if ctx.tier == Tier::Thorough { 2000 } else { 300 };
